@@ -259,6 +259,21 @@ CHECKS['C14'] = dict(
     ],
 )
 
+CHECKS['C17'] = dict(
+    level='exploration',
+    rule='the tree built a second time with -U__SSE__ -U__SSE2__ -U__AES__ -U__SSSE3__ -U__AVX2__ -U__SIZEOF_INT128__ (struct-based rx_vec_* emulation, fenv rounding, 32x32 mulh/smulh, shift rotates, '
+         'fegetenv/fesetenv save-restore, software-only AES) as a shared object next to the default build. Function level: generated boundary-biased operands through mulh, smulh, rotr, rotl, packed '
+         'int->double conversion and the FP operations add/sub/mul/div/sqrt/swap/xor under the four rounding modes (operands shaped like group F/E/A values): portable == default == __int128 / default SSE2. '
+         'Program level: ProgramGen cases through both builds\' real InterpretedLightVm::run (register file, 2 MiB scratchpad, final rounding mode). Hash level: generated (key, input, version): digests and 64 '
+         'dataset items per key equal; fegetround() after a single-call hash == entry mode for all four modes. Non-trivial: every distinct generated operand tuple / program / (key,input,version)',
+    assumptions=COMMON_ASSUME + ['-U of the feature macros selects exactly the code paths a platform without those features compiles (the compiler still emits SSE2 scalar instructions for double arithmetic, as any IEEE-754 platform would)',
+                                 'big-endian byte order paths of blake2/endian.h are not reachable on this host'],
+    stages=[
+        dict(name='portable', harness=H('c17', ['harness/c17_portable.cpp'], ldflags=PROG_LD), env=lambda V: {'VERIF_PORTABLE_SO': V.ensure_portable_so()},
+             plan={'quick': 'functions=400000,programs=320,hashes=16', 'thorough': 'functions=100000000,programs=40000,hashes=1000'}),
+    ],
+)
+
 C02_AUX = os.path.join(os.path.dirname(os.path.abspath(__file__)), 'build', 'run', 'c02-digests')
 
 
